@@ -69,7 +69,7 @@ def run(prop, tier, seed, replay=None):
     vh = vp.build_harness()
     work = vp.scratch(prop)
     try:
-        states, transitions, runs = rc.model_check(work, "NodeIO", ["MC_C12.cfg", "MC_C12_plain.cfg", "MC_C12_stdout.cfg"], workers=4)
+        states, transitions, runs = rc.model_check(work, "NodeIO", ["MC_C12.cfg", "MC_C12_plain.cfg", "MC_C12_stdout.cfg", "MC_C12_writer.cfg"], workers=4)
         # the two-stream part (stdout and stderr drained by two goroutines into one locked buffered writer)
         st2, tr2, runs2 = rc.model_check(work, "NodeIOStreams", ["MC_C12_streams.cfg"], workers=2)
         states, transitions, runs = states + st2, transitions + tr2, runs + runs2
